@@ -439,7 +439,7 @@ Lemma bootstrap_inv s tid c s' out : bootstrap s tid c = Done (s', out) ->
   s' = s \/
   exists s2, let e := mkEntry 1 1 entryConfig (enc_config_data (c_nodes c)) in
     e_index e = st_lastidx s + 1 /\
-    set_term (commit_log (set_log s (st_logprev s) (st_log s ++ [e]) (e_index e) (e_term e)) 1) 1 = Done s2 /\
+    set_term (commit_log (set_log s (st_logprev s) (st_log s ++ [e]) (e_index e) (e_term e)) 1) (N.max 1 (st_term s)) = Done s2 /\
     s' = set_role (change_config (set_log s2 (st_logprev s2) (st_log s2) 1 1) (mkConfig (c_nodes c) 1 1)) Candidate.
 Proof.
   intros H. unfold bootstrap in H.
